@@ -75,6 +75,9 @@ protected:
     static void collectDependencies(std::set<symbol_t>&, type_t);
 
 public:
+    /** Forgets parameters that were collected for a declaration which never came about (the text ended inside its parameter list). */
+    void forget_parameters() { params = frame_t::create(); }
+
     explicit StatementBuilder(Document&, std::vector<std::filesystem::path> libpaths = {});
     StatementBuilder(const StatementBuilder&) = delete;
 
